@@ -97,11 +97,17 @@ class Pure:
         cls.var_axioms = {}
         cls.defs = {}
         cls.eager = set()
+        cls.canon_args = False
         cls.counter = itertools.count()
 
     @classmethod
     def app(cls, name, args, pos=False, nonneg=False):
         args = [z3.simplify(a) for a in args]
+        if cls.canon_args and name not in ("EXP", "LOG", "SQRT"):
+            # relational checks: key stub applications by the canonical rational form of their arguments, so that
+            # semantically equal questions of the two runs get the same answer without congruence reasoning
+            from .terms import canon
+            args = [z3.simplify(canon(a)) for a in args]
         key = (name,) + tuple(a.get_id() for a in args)
         hit = cls.tab.get(key)
         if hit is not None:
@@ -159,6 +165,7 @@ class Pure:
 
     defs = {}  # named variable id -> defining term (symx.named)
     eager = set()  # function names whose congruence is asserted at creation
+    canon_args = False
 
     @classmethod
     def near(cls, exprs, depth=2):
